@@ -126,6 +126,52 @@ def check_echo(case):
     return fails
 
 
+TIME_NAMED_CASES = [{'precision': pr, 'dt': dt, 'emit': em} for pr in (None, 1) for dt in (0.1, 0.5) for em in (True, False)]
+
+
+def check_time_named(case):
+    """a model may have a variable of its own called `time` at the top of the hierarchy (a stopwatch summing its timesteps in
+    floating point): the rows of the history are keyed by the ENGINE's clock -- increasing, on the precision grid, the last one
+    at the time update() returned -- whatever that variable holds"""
+    from vivarium.core.engine import Engine
+    from vivarium.core.process import Process
+
+    class Stopwatch(Process):
+        defaults = {'timestep': 0.1, 'emit': True}
+
+        def ports_schema(self):
+            return {'global_time': {'_default': 0.0, '_updater': 'accumulate', '_emit': self.parameters['emit']},
+                    'other': {'n': {'_default': 0, '_emit': True}}}
+
+        def next_update(self, timestep, states):
+            return {'global_time': timestep * 1.0000001, 'other': {'n': 1}}
+    try:
+        eng = Engine(processes={'clock': Stopwatch({'timestep': case['dt'], 'emit': case['emit']})},
+                     topology={'clock': {'global_time': ('time',), 'other': ('other',)}},
+                     global_time_precision=case['precision'], display_info=False, progress_bar=False)
+        stamps = []
+        orig = eng.emitter.emit
+
+        def spy(cfg):
+            if cfg.get('table') == 'history':
+                stamps.append((cfg['data'].get('time'), eng.global_time))
+            return orig(cfg)
+        eng.emitter.emit = spy
+        eng.update(1.0)
+        keys = list(eng.emitter.get_data())
+    except Exception as e:
+        return ['engine raised %s: %s' % (type(e).__name__, str(e)[:200])]
+    fails = []
+    bad = [(st, gt) for st, gt in stamps if st != gt]
+    if bad:
+        fails.append('history rows are stamped %s while the engine clock read %s' % ([b[0] for b in bad[:4]], [b[1] for b in bad[:4]]))
+    if keys and (keys[-1] != eng.global_time or any(b <= a for a, b in zip(keys, keys[1:]))):
+        fails.append('time keys of the history are %s, the run ended at %r' % (keys[-4:], eng.global_time))
+    if case['precision'] is not None and any(round(k, case['precision']) != k for k in keys):
+        fails.append('time keys off the 10^-%d grid: %s' % (case['precision'], [k for k in keys if round(k, case['precision']) != k][:4]))
+    return fails[:3]
+
+
 def main():
     ap = argparse.ArgumentParser()
     ap.add_argument('--prop', required=True)
@@ -147,6 +193,10 @@ def main():
             same = l1 == l2 and (e1 is None) == (e2 is None)
             L.emit_result({'status': 'not-reproduced' if same else 'reproduced',
                            'failed': [] if same else ['serial and parallel runs hand over different timesteps']})
+            return
+        if 'time_named' in scn:
+            fails = check_time_named(scn['time_named'])
+            L.emit_result({'status': 'reproduced' if fails else 'not-reproduced', 'failed': fails[:5]})
             return
         if 'echo' in scn:
             fails = check_echo(scn['echo'])
@@ -235,6 +285,16 @@ def main():
                 rp = L.write_replay(a.out, prop, 'par%d' % done, scn2, fails, extra={'driver': 'bounded.sched', 'prop': prop})
                 failures.append({'id': '%s.bounded.parallel#%d: %s' % (prop, done, fails[0][:200]), 'replay': rp, 'failed': fails[:3]})
                 break
+    if prop in ('C03', 'C12') and len(failures) < 3:
+        for ci, case in enumerate(TIME_NAMED_CASES):
+            evaluations += 1
+            nontrivial.add('time-named-%d' % ci)
+            fails = check_time_named(case)
+            if fails:
+                rp = L.write_replay(a.out, prop, 'timenamed%d' % ci, {'time_named': case}, fails, extra={'driver': 'bounded.sched', 'prop': prop})
+                failures.append({'id': '%s.bounded.time-named#%d: %s' % (prop, ci, fails[0][:220]), 'replay': rp, 'failed': fails[:3]})
+                if len(failures) >= 3:
+                    break
     if prop in ('C01', 'C04') and len(failures) < 3:
         for ci, case in enumerate(ECHO_CASES):
             evaluations += 1
